@@ -1092,6 +1092,9 @@ def _list_decorators() -> Dict[str, Callable[[_FN], _FN]]:
 
     def remove(fn):
         def remove(self, value, _sa_initiator=None):
+            # testlib.pragma exempt:__eq__
+            if value not in self:
+                fn(self, value)  # raises ValueError like list.remove
             __del(self, value, _sa_initiator, NO_KEY)
             # testlib.pragma exempt:__eq__
             fn(self, value)
@@ -1118,6 +1121,8 @@ def _list_decorators() -> Dict[str, Callable[[_FN], _FN]]:
             else:
                 # slice assignment requires __delitem__, insert, __len__
                 start, stop, step = index.indices(len(self))
+                if value is not self:
+                    value = list(value)
 
                 if step == 1:
                     if value is self:
